@@ -238,6 +238,13 @@ impl Callback for SimpleStats {
             if tx_size > self.tx_biggest_size.0 {
                 self.tx_biggest_size = (tx_size, block_height, tx.hash);
             }
+            #[cfg(rbp_verif)]
+            if crate::verif::on() {
+                let types: Vec<String> = tx.value.outputs.iter().map(|o| crate::verif::js(&format!("{}", o.script.pattern))).collect();
+                let vals: Vec<String> = tx.value.outputs.iter().map(|o| format!("\"{}\"", o.out.value)).collect();
+                crate::verif::ev("stx", &format!("\"h\":{},\"txid\":\"{}\",\"cb\":{},\"nin\":{},\"size\":{},\"vals\":[{}],\"types\":[{}]",
+                    block_height, tx.hash, tx.value.is_coinbase(), tx.value.in_count.value, tx_size, vals.join(","), types.join(",")));
+            }
         }
 
         // Save time between blocks
@@ -251,6 +258,19 @@ impl Callback for SimpleStats {
             self.t_between_blocks.push(diff);
         }
         self.last_timestamp = block.header.value.timestamp;
+        #[cfg(rbp_verif)]
+        if crate::verif::on() {
+            let mut types: Vec<String> = self.n_tx_types.iter().map(|(p, n)| {
+                let f = self.tx_first_occs.get(p).unwrap();
+                format!("{{\"t\":{},\"n\":{},\"h\":{},\"txid\":\"{}\"}}", crate::verif::js(&format!("{}", p)), n, f.0, f.1)
+            }).collect();
+            types.sort();
+            crate::verif::ev("sblk", &format!("\"h\":{},\"ntx\":{},\"size\":{},\"time\":{},\"blocks\":{},\"txs\":{},\"ins\":{},\"outs\":{},\"fee\":\"{}\",\"volume\":\"{}\",\"bigv\":[\"{}\",{},\"{}\"],\"bigs\":[{},{},\"{}\"],\"nsizes\":{},\"ngaps\":{},\"lastgap\":{},\"types\":[{}]",
+                block_height, block.tx_count.value, block.size, block.header.value.timestamp, self.n_valid_blocks, self.n_tx, self.n_tx_inputs, self.n_tx_outputs,
+                self.n_tx_total_fee, self.n_tx_total_volume, self.tx_biggest_value.0, self.tx_biggest_value.1, self.tx_biggest_value.2,
+                self.tx_biggest_size.0, self.tx_biggest_size.1, self.tx_biggest_size.2, self.block_sizes.len(), self.t_between_blocks.len(),
+                self.t_between_blocks.last().map(|g| *g as i64).unwrap_or(-1), types.join(",")));
+        }
         Ok(())
     }
 
